@@ -38,12 +38,12 @@ SCALAR_KINDS = {
     "sum", "dot", "matmul", "norm", "qf", "dotQ", "dotP", "msum", "fro", "trace",
 }
 VECTOR_KINDS = {
-    "vec", "slice", "row", "col", "diag", "diagf", "arr", "list", "vparv", "vbin",
+    "vec", "slice", "row", "col", "diag", "diagf", "arr", "list", "tuple", "vparv", "vbin",
     "vrbin", "vneg", "vpow", "vfn", "mv", "Mv", "velems",
 }
 MATRIX_KINDS = {"mat", "T", "MT", "sub", "dmat", "arr2", "list2", "mbin", "mrbin", "mneg"}
 
-LEAF_KINDS = {"var", "const", "raw", "par", "pel", "vec", "mat", "arr", "list", "arr2", "list2", "vparv"}
+LEAF_KINDS = {"var", "const", "raw", "par", "pel", "vec", "mat", "arr", "list", "tuple", "arr2", "list2", "vparv"}
 
 
 def canon(obj) -> str:
@@ -174,6 +174,8 @@ def render(n) -> str:
         return f"np.array({n[1]})"
     if k in ("list", "list2"):
         return repr(n[1])
+    if k == "tuple":
+        return repr(tuple(n[1]))
     if k in ("vbin", "mbin"):
         return f"({render(n[2])} {n[1]} {render(n[3])})"
     if k in ("vrbin", "mrbin"):
